@@ -2,51 +2,115 @@
 import re
 
 from .. import lib, mir
+from .. import lib_sw as S
 from ..mir import render
 
-EXPLANATION = ("Swarm::dial: the should_dial decision table over PeerCondition x peer x is_connected x is_dialing is extracted from "
-               "the MIR (assignment sites + guards holding on all paths) and evaluated exhaustively against the documented "
-               "table; every Err return is preceded by exactly one FromSwarm::DialFailure and no Pool::add_outgoing, the Ok return "
-               "by exactly one add_outgoing; NoAddresses only on the is_empty edge; the retain closure keeps an address iff it is "
-               "not a listen address and first occurrence; the dialled address is a.with_p2p(peer).")
+EXPLANATION = ("Swarm::dial: the boolean that guards the DialPeerConditionFalse exit (a local assigned in match arms, or the result of a "
+               "crate-local helper whose body is then analysed) is evaluated abstractly over PeerCondition x peer x is_connected x "
+               "is_dialing and compared with the documented table; the two pool views it relies on are themselves decided "
+               "(is_dialing = some pending entry that is an outbound dial AND is for that peer; is_connected = the peer has an entry "
+               "in the established map); every Err return is preceded by exactly one FromSwarm::DialFailure and no Pool::add_outgoing, "
+               "the Ok return by exactly one add_outgoing; NoAddresses only on the is_empty edge; the retain closure keeps an address "
+               "iff it is not a listen address and first occurrence; the dialled address is a.with_p2p(peer).")
 ASSUMPTIONS = ["correctness of listened_addrs itself is C12", "Transport::dial implementations"]
 SW = "libp2p_swarm"
+NOISE = re.compile(r"tracing::|__CALLSITE|level_enabled|enabled$")
+GET_PEER = r"libp2p_swarm::dial_opts::DialOpts::get_peer_id\(.*?\)"
+GET_COND = r"libp2p_swarm::dial_opts::DialOpts::peer_condition\(.*?\)"
 
 
-def check(ctx):
-    d = ctx.body(SW, r"^libp2p_swarm::Swarm::dial$")
-    # ---- decision table
-    l = lib.local_by_name(d, "should_dial")
-    sites = [mir.Site(d, x[1], x[2]) for x in d.defs[l]]
-    atom_map = [(r"^discr\(libp2p_swarm::dial_opts::DialOpts::get_peer_id\(", "peer"),
-                (r"^discr\(libp2p_swarm::dial_opts::DialOpts::peer_condition\(", "cond"),
-                (r"^libp2p_swarm::connection::pool::Pool::is_dialing\(self\.pool, .*get_peer_id", "is_dialing"),
-                (r"^libp2p_swarm::connection::pool::Pool::is_connected\(self\.pool, .*get_peer_id", "is_connected")]
+def _decision(ctx, prog, d, exit_site):
+    """The boolean deciding the DialPeerConditionFalse exit: returns (kind, key, exit_label) with kind 'local' (key = local index)
+    or 'call' (key = block of the helper call), exit_label = truth value of that boolean on the way to the exit."""
+    cands = []
+    for text, labels, swbb, cond in d.guards_on_all_paths(exit_site.bb):
+        if len(labels) != 1 or NOISE.search(text):
+            continue
+        lab = next(iter(labels))
+        if lab not in ("true", "false"):
+            continue
+        c, lab = S.unnot(cond, lab)
+        if c[0] == "local" and len(d.defs.get(c[1], [])) >= 2 and not any(NOISE.search(render(x)) for _, x in S.defs_exprs(d, c[1])):
+            cands.append((len(d.dominators().get(swbb) or ()), "local", c[1], lab))
+        elif c[0] == "call" and S.crate_fn(prog, c[1]) is not None:
+            cands.append((len(d.dominators().get(swbb) or ()), "call", c[3], lab))
+    if not cands:
+        return None
+    cands.sort()
+    return cands[-1][1:]
 
-    def value_of(s):
-        e = d.site_expr(s)
-        r = render(e)
-        if e[0] == "const":
-            return "true" if e[1] else "false"
-        m = re.match(r"^Not\(libp2p_swarm::connection::pool::Pool::(is_connected|is_dialing)\(self\.pool, .*get_peer_id.*@Some\.0\)\)$", r)
-        if m:
-            atom = m.group(1)
-            return lambda asg, atom=atom: "false" if asg[atom] == "true" else "true"
-        return "?" + r[:80]
-    rows = lib.decision_rows(d, sites, atom_map, value_of)
+
+def _table(ctx, body, sites, peer, cond, negate, where):
+    pool = r"self\.\w+"
+    atom_map = [(r"^discr\(%s\)$" % peer, "peer"), (r"^discr\(%s\)$" % cond, "cond"),
+                (r"^libp2p_swarm::connection::pool::Pool::is_dialing\(%s, %s@Some\.0\)$" % (pool, peer), "is_dialing"),
+                (r"^libp2p_swarm::connection::pool::Pool::is_connected\(%s, %s@Some\.0\)$" % (pool, peer), "is_connected")]
+
+    def value_of(s, asg, env):
+        e = body.site_expr(s)
+        v = lib.eval_bool(body, e, asg, env, atom_map)
+        return v if v is not None else "?" + render(e)[:80]
     domain = {"peer": ["None", "Some"], "cond": ["Disconnected", "NotDialing", "DisconnectedAndNotDialing", "Always"],
               "is_dialing": ["true", "false"], "is_connected": ["true", "false"]}
 
     def ref(a):
         if a["peer"] == "None" or a["cond"] == "Always":
-            return "true"
-        c = a["is_connected"] == "true"
-        g = a["is_dialing"] == "true"
-        v = {"Disconnected": not c, "NotDialing": not g, "DisconnectedAndNotDialing": (not c) and (not g)}[a["cond"]]
+            v = True
+        else:
+            c = a["is_connected"] == "true"
+            g = a["is_dialing"] == "true"
+            v = {"Disconnected": not c, "NotDialing": not g, "DisconnectedAndNotDialing": (not c) and (not g)}[a["cond"]]
+        if negate:
+            v = not v
         return "true" if v else "false"
-    lib.check_table(ctx, "should-dial", "should_dial", rows, domain, ref, "%s:%d" % (d.file, d.line))
-    ctx.floor("should-dial", "assignments to should_dial", sites, 5)
-    # should_dial false => error return w/o add_outgoing
+    lib.check_cells2(ctx, "should-dial", "should_dial", body, sites, value_of, atom_map, domain, ref, where)
+
+
+def _views(ctx, prog):
+    """the two pool views the decision relies on"""
+    pend = S.role(prog, "pool.pending")
+    est = S.role(prog, "pool.established")
+    pfield = S.role(prog, "pending.peer")
+    efield = S.role(prog, "pending.endpoint")
+    # is_connected(peer) == established.contains_key(&peer)
+    b = S.nbody(ctx, r"pool::Pool::is_connected$")
+    rs = [render(e) for e in S.ret_exprs(b)]
+    ctx.ob("views", "is_connected = the peer has an entry in the established map",
+           rs == ["std::collections::HashMap::contains_key(self.%s, p2)" % est], "%s:%d" % (b.file, b.line), str(rs)[:200])
+    # is_dialing(peer) == pending.iter().any(|e| e is an outbound dial && e is for peer)
+    b = S.nbody(ctx, r"pool::Pool::is_dialing$")
+    rex = S.ret_exprs(b)
+    ok = len(rex) == 1 and S.is_call(rex[0], r"^std::iter::Iterator::any$") and \
+        re.match(r"^std::collections::HashMap::(iter|values)\(self\.%s\)$" % re.escape(pend), render(rex[0][2][0])) is not None
+    ctx.ob("views", "is_dialing = any() over the pending map", ok, "%s:%d" % (b.file, b.line), str([render(e) for e in rex])[:200])
+    if not ok:
+        return
+    cl = S.closure_at(prog, b, rex[0])
+    ctx.use(cl)
+    _, caps = S.closure_captures(b, rex[0])
+    ctx.ob("views", "is_dialing: the closure tests the queried peer", len(caps) == 1 and render(caps[0]) == "p2", "%s:%d" % (cl.file, cl.line), str([render(c) for c in caps]))
+    entry = r"p2(\.1)?"
+    same_helper = r"libp2p_swarm::connection::pool::PendingConnection::is_for_same_remote_as\(%s, \^\*?u0\)" % entry
+    same_inline = r"<std::option::Option as std::cmp::PartialEq>::eq\(%s\.%s, std::option::Option::Some\{0: \^\*?u0\}\)" % (entry, re.escape(pfield))
+    am = [(r"^discr\(%s\.%s\)$" % (entry, re.escape(efield)), "endpoint"), (r"^(%s|%s)$" % (same_helper, same_inline), "same")]
+
+    def val(s, asg, env):
+        e = cl.site_expr(s)
+        v = lib.eval_bool(cl, e, asg, env, am)
+        return v if v is not None else "?" + render(e)[:80]
+    lib.check_cells2(ctx, "views", "is_dialing: entry counts iff outbound dial AND same remote", cl, S.ret_sites(cl), val, am,
+                     {"endpoint": ["Dialer", "Listener"], "same": ["true", "false"]},
+                     lambda a: "true" if a["endpoint"] == "Dialer" and a["same"] == "true" else "false", "%s:%d" % (cl.file, cl.line))
+    if cl.call_sites(r"PendingConnection::is_for_same_remote_as$"):
+        h = S.nbody(ctx, r"pool::PendingConnection::is_for_same_remote_as$")
+        rs = [render(e) for e in S.ret_exprs(h)]
+        ctx.ob("views", "is_for_same_remote_as compares the stored expected peer", rs == ["<std::option::Option as std::cmp::PartialEq>::eq(self.%s, std::option::Option::Some{0: p2})" % pfield],
+               "%s:%d" % (h.file, h.line), str(rs)[:200])
+
+
+def check(ctx):
+    prog = ctx.prog
+    d = S.nbody(ctx, r"^libp2p_swarm::Swarm::dial$")
     rets = d.return_blocks()
     add = lib.bbs(d.call_sites(r"pool::Pool::add_outgoing$"))
     fail = lib.bbs(lib.calls_with_variant(d, r"NetworkBehaviour::on_swarm_event$", r"behaviour::FromSwarm$", "DialFailure"))
@@ -59,9 +123,49 @@ def check(ctx):
     ok_ret = [s for s in oks if "pr" not in s.stmt["p"] and s.stmt["p"]["l"] == 0]
     ctx.floor("exits", "Err returns", err_ret, 3)
     ctx.floor("exits", "Ok returns", ok_ret, 1)
+
+    def variants(s):
+        return lib.agg_variants(d.site_expr(s), r"^libp2p_swarm::DialError$")
+    # ---- decision table of the boolean that guards the DialPeerConditionFalse exit
+    cf = [s for s in err_ret if "DialPeerConditionFalse" in variants(s)]
+    ctx.floor("should-dial", "DialPeerConditionFalse exit", cf, 1)
+    dec = _decision(ctx, prog, d, cf[0]) if cf else None
+    ctx.ob("should-dial", "floor:decision guarding the DialPeerConditionFalse exit", dec is not None, cf[0].loc() if cf else "",
+           "the exit is dominated by one edge of a boolean decision (a local or a crate-local helper result): %s" % (dec,), nontrivial=False)
+
+    def same(c):
+        return dec is not None and ((dec[0] == "local" and c[0] == "local" and c[1] == dec[1]) or (dec[0] == "call" and c[0] == "call" and c[3] == dec[1]))
+
+    def dpred(value):
+        def p(c, r, lab):
+            c, lab = S.unnot(c, lab)
+            return lab == value and same(c)
+        return p
+    if dec is not None:
+        kind, key, exit_lab = dec
+        negate = exit_lab == "true"
+        if kind == "local":
+            sites = [mir.Site(d, x[1], x[2]) for x in d.defs[key]]
+            ctx.floor("should-dial", "assignments to should_dial", sites, 2)
+            _table(ctx, d, sites, GET_PEER, GET_COND, negate, "%s:%d" % (d.file, d.line))
+        else:
+            call = d.call_expr(d.blocks[key]["term"], key)
+            h = S.neutral(S.crate_fn(prog, call[1]))
+            ctx.use(h)
+            ip = S.param_of_type(h, r"^std::option::Option<libp2p_core::PeerId>$")
+            ic = S.param_of_type(h, r"dial_opts::PeerCondition$")
+            okp = len(call[2]) >= max(ip, ic) and re.match("^" + GET_PEER + "$", render(call[2][ip - 1])) is not None and \
+                re.match("^" + GET_COND + "$", render(call[2][ic - 1])) is not None
+            ctx.ob("should-dial", "helper is evaluated for this dial's peer and condition", okp, "%s:%d" % (d.file, d.blocks[key]["term"].get("l", 0)), render(call)[:200])
+            sites = S.ret_sites(h)
+            if len(sites) == 1 and h.site_expr(sites[0])[0] == "local":
+                sites = [s for s, _ in S.defs_exprs(h, h.site_expr(sites[0])[1])]
+            ctx.floor("should-dial", "assignments to should_dial", sites, 2)
+            _table(ctx, h, sites, "p%d" % ip, "p%d" % ic, negate, "%s:%d" % (h.file, h.line))
+    _views(ctx, prog)
+    # ---- exits
     for s in err_ret:
-        v = lib.agg_variants(d.site_expr(s), r"^libp2p_swarm::DialError$")
-        name = (v or ["?"])[0]
+        name = (variants(s) or ["?"])[0]
         got_f = lib.count_range(d, [0], [s.bb], fail)
         got_a = lib.count_range(d, [0], [s.bb], add)
         ctx.ob("exits", "Err(%s): one DialFailure" % name, got_f == (1, 1), s.loc(), "DialFailure notifications before this Err return: %s" % (got_f,))
@@ -73,21 +177,20 @@ def check(ctx):
         ctx.ob("exits", "Ok: one add_outgoing", got_a == (1, 1), s.loc(), "add_outgoing before Ok: %s" % (got_a,))
     # all returns are either an Err return or the Ok return
     for a in add:
-        ctx.guarded("guards", "add_outgoing requires should_dial", mir.Site(d, a),
-                    lambda c, r, lab: r == "should_dial" and lab == "true", "should_dial == true")
+        if dec is not None:
+            ctx.guarded("guards", "add_outgoing requires should_dial", mir.Site(d, a), dpred("false" if dec[2] == "true" else "true"), "should_dial == true")
         ctx.guarded("guards", "add_outgoing requires behaviour Ok", mir.Site(d, a),
                     lambda c, r, lab: r.startswith("discr(libp2p_swarm::behaviour::NetworkBehaviour::handle_pending_outbound_connection(") and lab == "Ok",
                     "handle_pending_outbound_connection == Ok")
         ctx.guarded("guards", "add_outgoing requires addresses", mir.Site(d, a),
                     lambda c, r, lab: r.startswith("std::vec::Vec::is_empty(") and lab == "false", "!addresses.is_empty()")
     for s in err_ret:
-        v = lib.agg_variants(d.site_expr(s), r"^libp2p_swarm::DialError$")
+        v = variants(s)
         if "NoAddresses" in v:
             ctx.guarded("guards", "NoAddresses only when empty", s,
                         lambda c, r, lab: r.startswith("std::vec::Vec::is_empty(") and lab == "true", "addresses.is_empty()")
-        if "DialPeerConditionFalse" in v:
-            ctx.guarded("guards", "DialPeerConditionFalse only when !should_dial", s,
-                        lambda c, r, lab: r == "should_dial" and lab == "false", "should_dial == false")
+        if "DialPeerConditionFalse" in v and dec is not None:
+            ctx.guarded("guards", "DialPeerConditionFalse only when !should_dial", s, dpred(dec[2]), "should_dial == false")
         if "Denied" in v:
             ctx.guarded("guards", "Denied only on behaviour Err", s,
                         lambda c, r, lab: "handle_pending_outbound_connection(" in r and lab == "Err", "behaviour returned Err")
@@ -96,37 +199,78 @@ def check(ctx):
     ctx.floor("retain", "retain call", ret_s, 1)
     emp = [bi for bi in d.live if d.switch_info(bi) and render(d.switch_info(bi)[0]).startswith("std::vec::Vec::is_empty(")]
     lib.precedes(ctx, "retain", "retain before is_empty", d, lib.bbs(ret_s), emp, "addresses filtered before the emptiness test")
+    # the list that is filtered is the list that is tested and dialled
+    if ret_s and emp:
+        recv = render(d.site_expr(ret_s[0])[2][0])
+        tested = {render(d.switch_info(bi)[0][2][0]) for bi in emp if d.switch_info(bi)[0][0] == "call"}
+        ctx.ob("retain", "the emptiness test looks at the filtered list", tested == {recv}, ret_s[0].loc(), "retain on %s, is_empty on %s" % (recv, sorted(tested)))
     # ---- retain closure table: keep <=> !any(listened == addr) && unique.insert(addr)
-    cl = ctx.body(SW, r"^libp2p_swarm::Swarm::dial::\{closure#0\}$")
-    rsites = [mir.Site(cl, x[1], x[2]) for x in cl.defs[0]]
-    amap = [(r"^std::iter::Iterator::any\(std::iter::Iterator::flatten\(std::collections::HashMap::values\(\^\*self\.listened_addrs\)\)", "is_listen_addr")]
+    if ret_s:
+        cl = S.closure_at(prog, d, ret_s[0])
+        ctx.use(cl)
+        _, caps = S.closure_captures(d, d.site_expr(ret_s[0]))
+        listened = S.role(prog, "swarm.listened")
+        k_l = [i for i, c in enumerate(caps) if render(c) == "self." + listened]
+        k_u = [i for i, c in enumerate(caps) if c[0] == "local" and re.search(r"^std::collections::HashSet<libp2p_core::Multiaddr", str(d.locals[c[1]]))]
+        ctx.ob("retain", "floor:closure captures the listen addresses and a local seen-set", len(k_l) == 1 and len(k_u) == 1, nontrivial=False,
+               msg=str([render(c) for c in caps]))
+        if len(k_l) == 1 and len(k_u) == 1:
+            any_rx = r"^std::iter::Iterator::any\(std::iter::Iterator::flatten\(std::collections::HashMap::values\(\^\*?u%d\)\), closure:.*\[p2\]\)$" % k_l[0]
+            ins_rx = r"^std::collections::HashSet::insert\(\^\*?u%d, <libp2p_core::Multiaddr as std::clone::Clone>::clone\(p2\)\)$" % k_u[0]
+            amap = [(any_rx, "is_listen_addr"), (ins_rx, "first_occurrence")]
 
-    def rv(s):
-        e = cl.site_expr(s)
-        if e[0] == "const":
-            return "drop" if not e[1] else "keep"
-        if re.match(r"^std::collections::HashSet::insert\(\^unique_addresses, <libp2p_core::Multiaddr as std::clone::Clone>::clone\(addr\)\)$", render(e)):
-            return lambda asg: "keep" if asg["first_occurrence"] == "true" else "drop"
-        return "?" + render(e)[:60]
-    rows = lib.decision_rows(cl, rsites, amap, rv)
-    lib.check_table(ctx, "retain", "keep", rows, {"is_listen_addr": ["true", "false"], "first_occurrence": ["true", "false"]},
-                    lambda a: "keep" if (a["is_listen_addr"] == "false" and a["first_occurrence"] == "true") else "drop",
-                    "%s:%d" % (cl.file, cl.line))
-    inner = ctx.body(SW, r"^libp2p_swarm::Swarm::dial::\{closure#0\}::\{closure#0\}$")
-    eqs = inner.call_sites(r"PartialEq>::eq$|PartialEq::eq$")
-    ok = len(eqs) == 1 and "addr" in render(inner.site_expr(eqs[0]))
-    ctx.ob("retain", "any-closure compares with addr", ok, "%s:%d" % (inner.file, inner.line),
-           "listen-address test is equality with the candidate: %s" % ([render(inner.site_expr(s)) for s in eqs]))
+            def rv(s, asg, env):
+                e = cl.site_expr(s)
+                v = lib.eval_bool(cl, e, asg, env, amap)
+                return {"true": "keep", "false": "drop"}.get(v, "?" + render(e)[:60])
+            lib.check_cells2(ctx, "retain", "keep", cl, S.ret_sites(cl), rv, amap, {"is_listen_addr": ["true", "false"], "first_occurrence": ["true", "false"]},
+                             lambda a: "keep" if (a["is_listen_addr"] == "false" and a["first_occurrence"] == "true") else "drop",
+                             "%s:%d" % (cl.file, cl.line))
+            anyc = cl.call_sites(r"^std::iter::Iterator::any$")
+            ctx.floor("retain", "listen-address search", anyc, 1)
+            for a in anyc[:1]:
+                inner = S.closure_at(prog, cl, a)
+                ctx.use(inner)
+                eqs = inner.call_sites(r"PartialEq>::eq$|PartialEq::eq$|cmp::impls::eq$")
+                args = sorted(render(x) for x in inner.site_expr(eqs[0])[2]) if len(eqs) == 1 else []
+                ok = len(eqs) == 1 and len(args) == 2 and args[1] == "p2" and re.match(r"^\^\*?u0$", args[0]) is not None and \
+                    [render(e) for e in S.ret_exprs(inner)] == [render(inner.site_expr(eqs[0]))]
+                ctx.ob("retain", "any-closure compares with addr", ok, "%s:%d" % (inner.file, inner.line),
+                       "listen-address test is equality with the candidate: %s" % ([render(inner.site_expr(s)) for s in eqs]))
     # ---- dialled address = with_p2p(peer)
-    c1 = ctx.body(SW, r"^libp2p_swarm::Swarm::dial::\{closure#1\}$")
-    td = c1.call_sites(r"Transport>::dial$|Transport::dial$")
-    ctx.floor("address", "transport.dial call", td, 1)
-    for s in td:
-        e = c1.site_expr(s)
-        r = render(e[2][1])
-        ctx.ob("address", "dial(address) originates from map_or(Ok(a), with_p2p)", "std::option::Option::map_or(^peer_id" in r and "@Ok.0" in r,
-               s.loc(), "address operand: %s" % r[:160])
-    c10 = ctx.body(SW, r"^libp2p_swarm::Swarm::dial::\{closure#1\}::\{closure#0\}$")
-    wp = c10.call_sites(r"Multiaddr::with_p2p$")
-    ctx.ob("address", "with_p2p(peer)", len(wp) == 1 and render(c10.site_expr(wp[0])).endswith(", p)"), "%s:%d" % (c10.file, c10.line),
-           "peer id appended with Multiaddr::with_p2p")
+    c1s = [c for c in S.children(prog, d, "closure") if c.call_sites(r"Transport>::dial$|Transport::dial$")]
+    ctx.ob("address", "floor:closure that starts the transport dial", len(c1s) == 1, nontrivial=False, msg=str([c.npath for c in c1s]))
+    if len(c1s) == 1:
+        c1 = c1s[0]
+        ctx.use(c1)
+        caps = None
+        for s in d.stmt_sites(lambda st: st["k"] == "assign" and st["r"]["k"] == "agg" and st["r"].get("def") == c1.path):
+            caps = d.site_expr(s)[2]
+        k_p = [i for i, c in enumerate(caps or ()) if re.match("^" + GET_PEER + "$", render(c))]
+        ctx.ob("address", "floor:dial closure captures the target peer", len(k_p) == 1, nontrivial=False, msg=str([render(c)[:60] for c in caps or ()]))
+        td = c1.call_sites(r"Transport>::dial$|Transport::dial$")
+        ctx.floor("address", "transport.dial call", td, 1)
+        for s in td:
+            e = c1.site_expr(s)
+            a = e[2][1]
+            mo = [c for c in mir.calls_in(a, r"^std::option::Option::map_or$")]
+            ok = len(k_p) == 1 and len(mo) == 1 and re.match(r"^\^\*?u%d$" % k_p[0], render(mo[0][2][0])) is not None and \
+                re.match(r"^std::result::Result::Ok\{0: <libp2p_core::Multiaddr as std::clone::Clone>::clone\(p2\)\}$", render(mo[0][2][1])) is not None
+            # the address handed to the transport is the Ok payload of that map_or
+            root = a
+            while root[0] == "call" and re.search(r"Clone>::clone$", mir.strip_generics(root[1])):
+                root = root[2][0]
+            ok = ok and root[0] == "field" and root[1][0] == "downcast" and root[1][2] == "Ok" and root[1][1][0] == "call" and root[1][1][3] == mo[0][3]
+            ctx.ob("address", "dial(address) originates from map_or(Ok(a), with_p2p)", ok, s.loc(), "address operand: %s" % render(a)[:160])
+            for m in mo[:1]:
+                c10 = S.closure_at(prog, c1, m)
+                ctx.use(c10)
+                _, icaps = S.closure_captures(c1, m)
+                wp = c10.call_sites(r"Multiaddr::with_p2p$")
+                ok = len(wp) == 1 and len(icaps) == 1 and render(icaps[0]) == "p2"
+                if ok:
+                    we = c10.site_expr(wp[0])
+                    ok = render(we[2][1]) == "p2" and re.search(r"\^\*?u0\)*$", render(we[2][0])) is not None and \
+                        [render(x) for x in S.ret_exprs(c10)] == [render(we)]
+                ctx.ob("address", "with_p2p(peer)", ok, "%s:%d" % (c10.file, c10.line), "peer id appended with Multiaddr::with_p2p")
+        # the peer handed to the pool for the identity check is the dial's target (C05 relies on it)
